@@ -97,6 +97,8 @@ func cmdRun(args []string) int {
 	out := fs.String("out", "", "write the JSON report here")
 	trace := fs.Bool("trace", false, "trace instructions")
 	verbose := fs.Bool("v", false, "print failures in full")
+	setup := fs.String("setup", "", "concrete set-up function (snapshot)")
+	nosnap := fs.Bool("nosnapshot", false, "run initialisers on every path")
 	params := paramFlag{}
 	fs.Var(params, "p", "harness parameter k=v (repeatable)")
 	fs.Parse(args)
@@ -119,7 +121,7 @@ func cmdRun(args []string) int {
 		return 2
 	}
 	tl := time.Since(t0)
-	cfg := interp.Config{Workers: *workers, Sched: *sched, LoopCap: *loopcap, MaxPaths: *maxpaths, QueryTimeoutMS: *qto, Trace: *trace, Params: params}
+	cfg := interp.Config{Workers: *workers, Sched: *sched, LoopCap: *loopcap, MaxPaths: *maxpaths, QueryTimeoutMS: *qto, Trace: *trace, Params: params, Setup: *setup, NoSnapshot: *nosnap}
 	res := interp.Explore(l.prog, l.pkgs[*pkg], *fn, cfg)
 	printResult(res, *verbose)
 	fmt.Printf("load %.1fs explore %.1fs\n", tl.Seconds(), res.WallSeconds)
